@@ -35,7 +35,7 @@ func genC09(dir, tier string, seed int64) {
 		keep, nSoft = 1, 20000
 	}
 	cw := newCaseWriter(dir, "C09_ops", opHeader("CheckC09"), opFooter,
-		"ArgMax: all shapes of rank 1..4 with extents 1..3 x every axis in both spellings (and out-of-range ones) x keepdims in {absent,0,1}, payloads with ties, distinct values, NaNs (float) over float32/float64/int32/int64/uint32/uint64 (one 64-bit integer payload in three: neighbouring values beyond 2^53); ReduceMax/ReduceMin: the same shapes x every subset of axes (random positive/negative spelling, absent, unsorted) x keepdims in {absent,0,1}, NaN-free payloads; Softmax/LogSoftmax: seeded random shapes of rank 1..4 (extents 1..4) x every axis in both spellings (default and out-of-range too) x float32/float64, finite values across the whole range: tiny, ordinary, +-1e3 gaps inside a slice, up to +-3e38 / +-1e308, equal values, first element of the tensor far above a later row", false, 250)
+		"ArgMax: all shapes of rank 1..4 with extents 1..3 and seven shapes with an extent of 4..17 x every axis in both spellings (and out-of-range ones) x keepdims in {absent,0,1}, payloads with ties, distinct values, NaNs (float) over float32/float64/int32/int64/uint32/uint64 (one 64-bit integer payload in three: neighbouring values beyond 2^53); ReduceMax/ReduceMin: the same shapes x every subset of axes (random positive/negative spelling, absent, unsorted) x keepdims in {absent,0,1}, NaN-free payloads; Softmax/LogSoftmax: seeded random shapes of rank 1..4 (extents 1..4) x every axis in both spellings (default and out-of-range too) x float32/float64, finite values across the whole range: tiny, ordinary, +-1e3 gaps inside a slice, up to +-3e38 / +-1e308, equal values, first element of the tensor far above a later row", false, 250)
 	fdts := []tensor.Dtype{tensor.Float32, tensor.Float32, tensor.Float64, tensor.Int32, tensor.Int64, tensor.Uint32, tensor.Uint64}
 	k := 0
 	payload := func(d tensor.Dtype, shape []int, withNaN bool) tensor.Tensor {
@@ -82,7 +82,8 @@ func genC09(dir, tier string, seed int64) {
 		}
 		return mkT(d, shape, vals)
 	}
-	for _, s := range shapesUpToRank(1, 4, []int{1, 2, 3}) {
+	c09shapes := append(shapesUpToRank(1, 4, []int{1, 2, 3}), [][]int{{5}, {9}, {17}, {2, 9}, {8, 3}, {3, 17, 2}, {5, 1, 4}}...)
+	for _, s := range c09shapes {
 		s := s
 		rk := len(s)
 		sel := func() bool { return rk <= 2 || keep == 1 || r.Intn(keep*(rk-1)) == 0 }
